@@ -106,18 +106,18 @@ type World struct {
 	OnProbe            func(name string, arg any)
 	watchAddr          unsafe.Pointer
 	watchAcq, watchRel func()
-	tasks    []*Task
-	active   []*Task
-	cur      *Task
-	Steps    uint64
-	Switches uint64
-	evseq    uint64
-	MaxSteps uint64
-	aborted  bool
-	Fail     *Failure
-	doneCh   chan struct{}
-	doneOnce sync.Once
-	wg       sync.WaitGroup
+	tasks              []*Task
+	active             []*Task
+	cur                *Task
+	Steps              uint64
+	Switches           uint64
+	evseq              uint64
+	MaxSteps           uint64
+	aborted            bool
+	Fail               *Failure
+	doneCh             chan struct{}
+	doneOnce           sync.Once
+	wg                 sync.WaitGroup
 
 	waiters map[unsafe.Pointer][]*Task
 	chans   map[unsafe.Pointer]*chanState
@@ -131,6 +131,10 @@ type World struct {
 	Rec        []Deviation
 	recLimit   int
 	fair       bool
+	stall      *Task  // stalled-task fault: not scheduled while anything else can run (generation mode only)
+	stallUntil uint64 // ... until this many steps have passed
+	Stalls     uint64
+	StallSteps uint64
 	fairCount  int
 	fairStart  uint64
 	FairBudget uint64
@@ -399,15 +403,25 @@ func (w *World) point(k Kind) {
 	if w.nopreempt > 0 {
 		return
 	}
+	if w.stall != nil {
+		w.StallSteps++
+		if w.Steps >= w.stallUntil || w.stall.state == stDone || w.stall == t {
+			w.stall = nil
+		}
+	}
 	if k == KLoad {
 		t.loadStreak++
 		if t.loadStreak >= 48 && t.loadStreak%16 == 0 {
 			// probable spin: deterministic forced yield
-			if n := w.nextRoundRobin(t); n != nil && n != t {
+			n, decided := w.yieldTarget(t)
+			if n != nil && n != t {
 				w.SpinYields++
 				w.Strat.OnSpin(w, t)
 				w.handoff(t, n)
 				return
+			}
+			if decided {
+				return // a recorded decision to stay (the only alternative was stalled)
 			}
 		}
 	} else {
@@ -446,9 +460,78 @@ func Yield() {
 	if w.Steps > w.MaxSteps {
 		w.budgetExceeded()
 	}
-	if n := w.nextRoundRobin(t); n != nil && n != t {
+	if n, _ := w.yieldTarget(t); n != nil && n != t {
 		w.handoff(t, n)
 	}
+}
+
+// yieldTarget: who runs after a forced yield (spin detection, runtime.Gosched) of t. The default is
+// the next runnable task in round-robin order - a deterministic rule, so it is not part of the
+// recorded schedule. With a stalled task (a fault that only exists while a run is generated) the
+// stalled task is skipped; that is a decision of the schedule and is recorded as a deviation at this
+// point (target t itself = "stay"), which replay looks up here. decided reports that the schedule,
+// not the default rule, chose.
+func (w *World) yieldTarget(t *Task) (n *Task, decided bool) {
+	def := w.nextRoundRobin(t)
+	if w.fair {
+		return def, false
+	}
+	if w.replaying {
+		if to, ok := w.replay[devKey(t.ID, t.points)]; ok && int(to) < len(w.tasks) {
+			if int(to) == t.ID {
+				return t, true
+			}
+			if c := w.tasks[to]; c.state == stRunnable {
+				return c, true
+			}
+		}
+		return def, false
+	}
+	if w.stall == nil || def != w.stall {
+		return def, false
+	}
+	var first, after *Task
+	for _, a := range w.active {
+		if a.state != stRunnable || a == t || a == w.stall {
+			continue
+		}
+		if first == nil || a.ID < first.ID {
+			first = a
+		}
+		if a.ID > t.ID && (after == nil || a.ID < after.ID) {
+			after = a
+		}
+	}
+	alt := after
+	if alt == nil {
+		alt = first
+	}
+	if alt == nil {
+		alt = t
+	}
+	w.record(t, alt)
+	return alt, true
+}
+
+// BeginStall (strategies): the current task t is not scheduled for the next steps points while any
+// other task can run - a slow or descheduled goroutine. Returns false if nothing else is runnable.
+func (w *World) BeginStall(t *Task, steps uint64) bool {
+	if w.replaying || w.fair || w.stall != nil {
+		return false
+	}
+	other := false
+	for _, a := range w.active {
+		if a.state == stRunnable && a != t {
+			other = true
+		}
+	}
+	if !other {
+		return false
+	}
+	w.stall, w.stallUntil = t, w.Steps+steps
+	w.Stalls++
+	w.Strat.OnSpin(w, t) // priority strategies: everybody else goes first
+	return true
 }
 
 // budgetExceeded: in the fair phase (round-robin, no faults) running out of steps is a liveness
@@ -532,7 +615,7 @@ func (w *World) pick(t *Task, mustSwitch bool) *Task {
 		return choice
 	}
 	choice = w.Strat.PickPoint(w, t)
-	if choice == nil || choice == t {
+	if choice == nil || choice == t || (choice == w.stall && w.stall != nil) {
 		return t
 	}
 	w.record(t, choice)
@@ -578,9 +661,12 @@ func (w *World) lowestQuiesce() *Task {
 func (w *World) Runnable(t *Task, buf []*Task) []*Task {
 	buf = buf[:0]
 	for _, a := range w.active {
-		if a.state == stRunnable && a != t {
+		if a.state == stRunnable && a != t && a != w.stall {
 			buf = append(buf, a)
 		}
+	}
+	if len(buf) == 0 && w.stall != nil && w.stall != t && w.stall.state == stRunnable {
+		buf = append(buf, w.stall) // nothing else can run: the stall is over
 	}
 	return buf
 }
@@ -768,6 +854,9 @@ func (w *World) AwaitQuiescence() {
 
 // SetFair switches to the fair round-robin drain phase (no strategy, no recorded deviations).
 func (w *World) SetFair(on bool) {
+	if on {
+		w.stall = nil
+	}
 	w.fair = on
 	w.fairCount = 0
 	if on {
